@@ -192,7 +192,7 @@ theorem mkUnits_length (C P : Bytes) (r : H) (t : List (List H)) (sg : Bytes) (n
   | e :: enc, i => by simp [mkUnits, mkUnits_length C P r t sg n enc (i + 1)]
 
 /-- Which unit's root is compared: some present unit when there is one (fixed code), `units[0]`
-when shard 0 is present (pinned code). -/
+when shard 0 is present (code before a2bceaf). -/
 theorem rootUnit_mask (cfg : Cfg) : ∀ (units : List (PUnit H)) (S : List Bool), S.length = units.length →
     ((cfg.rootFromPresent = true ∧ 0 < S.count true) ∨ S.head? = some true) →
     ∃ u, rootUnit cfg (maskUnits S units) = some u ∧ u ∈ units := by
@@ -297,7 +297,7 @@ theorem construct_created_aux [DecidableEq H] (cfg : Cfg) (f : HashFns H) (rs : 
 
 /-- `reconstruct_any_subset` on the model: any selection of at least `k` units gives back the
 message, the local shard and its proof — provided the unit whose root is compared is present
-(always, with the fix; only when shard 0 is present, in the pinned code). -/
+(always, since a2bceaf; only when shard 0 is present, before). -/
 theorem construct_created [DecidableEq H] (cfg : Cfg) (f : HashFns H) (rs : RS)
     (C P : Bytes) (sig : Bytes) (n : Nat) (msg : Bytes) (k p : Nat)
     (hl : RSLaws rs k p) (hin : PadInput msg k) (hok : rsNewOk k p = true) (hsz : GoSized rs msg k p)
@@ -319,7 +319,7 @@ theorem construct_created [DecidableEq H] (cfg : Cfg) (f : HashFns H) (rs : RS)
   have hu0root : u0.root = (treeOf cfg f rs msg k p).1 := mkUnits_root _ _ _ _ _ _ _ _ u0 hu0mem
   simp [hu0, hu0root]
 
-/-- The defect of the pinned code: whenever shard 0 is missing, ConstructMessageFromUnits panics
+/-- The defect repaired by a2bceaf (`rootFromPresent = false`): whenever shard 0 is missing, ConstructMessageFromUnits panics
 (nil pointer dereference of `units[0]`), however many other shards are present. -/
 theorem construct_created_panics_pinned [DecidableEq H] (cfg : Cfg) (f : HashFns H) (rs : RS)
     (C P : Bytes) (sig : Bytes) (n : Nat) (msg : Bytes) (k p : Nat)
@@ -502,8 +502,8 @@ theorem unitShards_some : ∀ (U : List (Option (PUnit H))), (∀ u, some u ∈ 
       refine ⟨some x :: sh, by simp [unitShards, hs, h1], ?_⟩
       simp [present, List.countP_cons] at h2 ⊢; exact h2
 
-/-- When can ConstructMessageFromUnits panic? Only through one of the two defects of the pinned
-code (`units[0]` missing; `uint64` overflow in UnpadMessage) — provided every present unit carries
+/-- When can ConstructMessageFromUnits panic? Only through one of the two defects repaired by a2bceaf and
+32710c6 (`units[0]` missing; `uint64` overflow in UnpadMessage) — provided every present unit carries
 at least one shard (the validator enforces exactly one) and the local index is a shard index. -/
 theorem construct_panic_only_if [DecidableEq H] (cfg : Cfg) (f : HashFns H) (rs : RS)
     (k p : Nat) (hl : RSLaws rs k p) (hk : 0 < k)
